@@ -1590,6 +1590,9 @@ pub fn run_c10(tier: Tier) -> i32 {
         for &depth in depths {
             cyc_n.fetch_add(1, Ordering::Relaxed);
             let (matters, unattributed) = c10_cycle_query(&rep, base, &moves, depth, false);
+            if matters && std::env::var("IVK_PRINT_CYCLES").is_ok() {
+                println!("CYCLE-MATTERS depth {} : {} moves {}", depth, base.to_fen(), moves.join(" "));
+            }
             if matters {
                 cyc_matter.fetch_add(1, Ordering::Relaxed);
             }
